@@ -7,6 +7,8 @@ package main
 // opaque step and what it assigns becomes unknown.
 
 import (
+	"go/constant"
+	"strconv"
 	"fmt"
 	"go/ast"
 	"go/token"
@@ -167,12 +169,27 @@ func (d *dtEnum) canon(p *dtPath, e ast.Expr) string {
 		if x.Ellipsis.IsValid() {
 			ell = "..."
 		}
+		// fmt.Sprintf with a constant format made of %s (string operands) and %d (integer operands) only is
+		// the concatenation of its pieces; both spellings print as the concatenation
+		if calleeName(d.info, x) == "fmt.Sprintf" && len(x.Args) >= 1 && !x.Ellipsis.IsValid() {
+			if tv := d.info.Types[x.Args[0]]; tv.Value != nil && tv.Value.Kind() == constant.String {
+				if parts, ok := sprintfParts(d, p, constant.StringVal(tv.Value), x.Args[1:]); ok {
+					return strings.Join(parts, " + ")
+				}
+			}
+		}
 		if d.exprInline != nil && d.exprDepth < 3 {
 			if fn := calleeFunc(d.info, x); fn != nil {
 				if fd := d.exprInline[fn]; fd != nil {
 					if q := d.bindCall(p, fd, x); q != nil {
 						d.exprDepth++
-						out := d.canon(q, fd.Body.List[0].(*ast.ReturnStmt).Results[0])
+						var out string
+						if len(fd.Body.List) == 2 {
+							// comma-ok predicate: _, ok := <lookup>; return ok
+							out = d.canon(q, fd.Body.List[0].(*ast.AssignStmt).Rhs[0]) + "#ok"
+						} else {
+							out = d.canon(q, fd.Body.List[0].(*ast.ReturnStmt).Results[0])
+						}
 						d.exprDepth--
 						return out
 					}
@@ -200,8 +217,14 @@ func (d *dtEnum) canon(p *dtPath, e ast.Expr) string {
 	case *ast.BinaryExpr:
 		l, r := d.canon(p, x.X), d.canon(p, x.Y)
 		op := x.Op
-		// constants to the right
-		if isConstish(l) && !isConstish(r) {
+		isStr := false
+		if t := d.info.TypeOf(x); t != nil {
+			if b, ok := t.Underlying().(*types.Basic); ok && b.Info()&types.IsString != 0 {
+				isStr = true
+			}
+		}
+		// constants to the right (not for string concatenation, whose order matters)
+		if isConstish(l) && !isConstish(r) && !(op == token.ADD && isStr) {
 			l, r = r, l
 			switch op {
 			case token.LSS:
@@ -935,4 +958,57 @@ func (d *dtEnum) follow(p *dtPath, call *ast.CallExpr, k func(q *dtPath, rets []
 	})
 	d.frames = d.frames[:len(d.frames)-1]
 	return true
+}
+
+// sprintfParts splits a %s/%d-only format into literal and operand pieces (nil, false if anything else occurs).
+func sprintfParts(d *dtEnum, p *dtPath, format string, args []ast.Expr) ([]string, bool) {
+	var parts []string
+	lit := ""
+	ai := 0
+	flush := func() {
+		if lit != "" {
+			parts = append(parts, strconv.Quote(lit))
+			lit = ""
+		}
+	}
+	for i := 0; i < len(format); i++ {
+		if format[i] != '%' {
+			lit += string(format[i])
+			continue
+		}
+		if i+1 >= len(format) {
+			return nil, false
+		}
+		i++
+		switch format[i] {
+		case '%':
+			lit += "%"
+		case 's', 'd':
+			if ai >= len(args) {
+				return nil, false
+			}
+			t := d.info.TypeOf(args[ai])
+			b, ok := t.Underlying().(*types.Basic)
+			if !ok {
+				return nil, false
+			}
+			flush()
+			switch {
+			case format[i] == 's' && b.Info()&types.IsString != 0:
+				parts = append(parts, d.canon(p, args[ai]))
+			case format[i] == 'd' && b.Kind() == types.Int:
+				parts = append(parts, "strconv.Itoa("+d.canon(p, args[ai])+")")
+			default:
+				return nil, false
+			}
+			ai++
+		default:
+			return nil, false
+		}
+	}
+	flush()
+	if ai != len(args) || len(parts) == 0 {
+		return nil, false
+	}
+	return parts, true
 }
